@@ -28,3 +28,35 @@ Print Assumptions C14_path_search_sound.
 Theorem C14_acyclic_is_forest : forall T, acyclic T = true -> is_forest T.
 Proof. exact acyclic_forest. Qed.
 Print Assumptions C14_acyclic_is_forest.
+
+(* ---------- edge-list files (EdgeModel.v / EdgeProofs.v) ---------- *)
+From Cmr Require Import TextModel EdgeModel.
+From Cmr Require EdgeProofs.
+
+(* an accepted `edgelist` record: the library's nodes, edges (line order, end nodes numbered by first appearance,
+   row/column labels) and node labels are exactly what the documented grammar assigns to the bytes *)
+Theorem C14_edgelist_judge_sound : forall rec,
+  judge_edgelist rec = 0 ->
+  exists bytes rc nn hl labs es rest,
+    EdgeProofs.edgelist_input rec = Some ((bytes, rc, nn, hl, labs, es), rest) /\
+    rc = 0 /\
+    exists names, parse_edges [] (lines bytes) = Some (names, es) /\
+                  nn = length names /\ (hl <> 0 -> labs = names).
+Proof. exact EdgeProofs.judge_edgelist_sound. Qed.
+Print Assumptions C14_edgelist_judge_sound.
+
+(* print / parse round trip of the grammar: any graph whose nodes are numbered in order of first appearance, with
+   well-formed distinct names, is read back from its printed edge list *)
+Theorem C14_edgelist_roundtrip : forall names es,
+  EdgeProofs.names_ok names -> EdgeProofs.seen_after 0 es = Some (length names) ->
+  (forall u v e, In (u, v, e) es -> Z.abs e < 10 ^ 80) ->
+  parse_edges [] (lines (EdgeProofs.print_edgelist names es)) = Some (names, es).
+Proof. exact EdgeProofs.parse_print_edgelist. Qed.
+Print Assumptions C14_edgelist_roundtrip.
+
+Theorem C14_edgelist_end_nodes_valid : forall ls names0 names es,
+  parse_edges names0 ls = Some (names, es) ->
+  (forall u v e, In (u, v, e) es -> (u < length names)%nat /\ (v < length names)%nat) /\
+  (exists ext, names = names0 ++ ext).
+Proof. exact EdgeProofs.parse_edges_nodes_lt. Qed.
+Print Assumptions C14_edgelist_end_nodes_valid.
